@@ -15,7 +15,7 @@
    and the patched shape are accepted.
 """
 import os, re
-from extract import ShapeError, write_if_changed
+from extract import ShapeError, write_if_changed, read_src
 
 KNOWN = {
     ("src/wallet.rs", "create_unsigned_send_amount_transaction"),
@@ -65,7 +65,7 @@ def run(repo, gen):
             rel = os.path.relpath(path, repo)
             if rel in ("src/fund_raw_transaction.rs", "src/verif.rs", "src/lib.rs"):
                 continue
-            src = strip_comments(open(path).read())
+            src = read_src(path)
             cut = src.find("#[cfg(test)]\nmod tests")
             body = src if cut < 0 else src[:cut]
             if "fund_raw_transaction(" not in body:
@@ -101,7 +101,7 @@ def run(repo, gen):
     # any lock call elsewhere is irrelevant; any fund call elsewhere is in `sites` and gets the obligation
 
     # ---- C22 zero-amount repair
-    w = strip_comments(open(os.path.join(repo, "src", "wallet.rs")).read())
+    w = read_src(os.path.join(repo, "src", "wallet.rs"))
     m = re.search(r"pub fn create_unsigned_send_or_burn_runes_transaction\(.*?\n  \}\n", w, re.S)
     if not m:
         raise ShapeError("wallet.rs: create_unsigned_send_or_burn_runes_transaction not found")
